@@ -14,13 +14,14 @@ KEYS = [0, 1, 2]
 
 PROFILE_DYN = dict(call_dyn=30, call=8, get_item=10, del_item=4, set_value_dyn=6, set_value=2,
                    clear_at_dyn=3, set_formula=9, set_cached=3, set_ref=10, del_ref=3,
-                   new_cells=3, del_cells=2, set_pf=3, add_bases=2, remove_bases=1)
+                   new_cells=3, del_cells=2, set_pf=3, add_bases=2, remove_bases=1,
+                   new_space=2, del_space=0.4)
 
 
 # deletion-heavy schedule (C13 in the ItemSpace world): several instances alive,
 # then members / instances / bases taken away
 PROFILE_DYN_DELETE = dict(PROFILE_DYN, get_item=16, del_item=8, del_cells=10, new_cells=6,
-                          set_formula=4, set_ref=5, remove_bases=3, add_bases=3, set_pf=2)
+                          set_formula=4, set_ref=5, remove_bases=3, add_bases=3, set_pf=2, del_space=1.5)
 PROFILES_DYN = {"dyn": PROFILE_DYN, "dyn-delete": PROFILE_DYN_DELETE}
 
 
@@ -241,6 +242,8 @@ class GenDyn(Gen):
 
     def next_op(self):
         rng = self.rng
+        if self.queue:
+            return self.queue.pop(0)
         prof = self.dyn_profile
         kinds = list(prof)
         for _ in range(60):
@@ -367,21 +370,60 @@ class GenDyn(Gen):
 
     def mk_set_pf(self):
         rng = self.rng
+        if self.nested and ["P", "Q"] in self.mir["sp"] and rng.random() < 0.3:
+            # the parameter formula of the NESTED parametrised space changes (one or two
+            # parameters): existing P[i] hold a replica of Q built for the old signature
+            two = rng.random() < 0.5
+            qps = [["q", 0, 0]] + ([["qq", 1, rng.choice([0, 1])]] if two else [])
+            return {"op": "set_pf", "s": ["P", "Q"],
+                    "f": self.new_pf(qps, False, base=["R"] if getattr(self, "outer_base", False) else None)}
         if rng.random() < 0.2:
             return {"op": "set_pf", "s": ["P"]}             # delete the parameter formula
         two = rng.random() < 0.4
         pps = [["p", 0, 0]] + ([["pp", 1, rng.choice([0, 1])]] if two else [])
         return {"op": "set_pf", "s": ["P"], "f": self.new_pf(pps, rng.random() < 0.3)}
 
-    def mk_add_bases(self):
-        if ["B"] not in self.mir["sp"] or ["B"] in self.mir["bases"][("P",)]:
+    def mk_new_space(self):
+        """A grandchild space appears under a child of P (then gets a cells): instances built
+        before must show it."""
+        rng = self.rng
+        parents = [q for q in self.mir["sp"] if q[0] == "P" and len(q) == 2 and q != ["P", "Q"]]
+        if not parents:
             return None
-        return {"op": "add_bases", "s": ["P"], "bs": [["B"]]}
+        par = rng.choice(parents)
+        nm = rng.choice(["N", "M"])
+        if par + [nm] in self.mir["sp"]:
+            return None
+        self.rank.setdefault("v", 0)
+        self.sigs.setdefault("v", [])
+        f = self.new_fid({"ps": self.sigs["v"], "ops": [["const", rng.choice([3000, 4000])], ["read", ["p"]]],
+                          "catch": False, "onerr": 900, "style": "def"})
+        self.queue.append({"op": "new_cells", "s": par + [nm], "c": "v",
+                           "rec": {"f": f, "cached": True, "an": 0}})
+        key = self.key()
+        self.queue.append({"op": "call", "c": [["P"], [["i", "", key], ["c", par[1], []], ["c", nm, []]], "v"],
+                           "args": [self.rng.choice([0, 1]) for _ in self.sigs["v"]], "sp": "pos"})
+        return {"op": "new_space", "p": par + [nm], "bases": []}
+
+    def mk_del_space(self):
+        # the parametrised space itself goes away (late in a history: little is left afterwards)
+        if ["P"] not in self.mir["sp"]:
+            return None
+        return {"op": "del_space", "p": ["P"]}
+
+    def mk_add_bases(self):
+        # B becomes a base of P, or of R (the space the nested instances P[i].Q[k] are built from)
+        cand = [t for t in (["P"], ["R"]) if t in self.mir["sp"] and ["B"] in self.mir["sp"]
+                and ["B"] not in self.mir["bases"][tp(t)]]
+        if not cand:
+            return None
+        return {"op": "add_bases", "s": self.rng.choice(cand), "bs": [["B"]]}
 
     def mk_remove_bases(self):
-        if ["B"] not in self.mir["bases"].get(("P",), []):
+        cand = [t for t in (["P"], ["R"]) if ["B"] in self.mir["bases"].get(tp(t), [])]
+        if not cand:
             return None
-        return {"op": "remove_bases", "s": ["P"], "bs": [["B"]]}
+        return {"op": "remove_bases", "s": self.rng.choice(cand), "bs": [["B"]]}
 
     def update(self, op, res, ev=None):
         if res != "ok":
@@ -397,6 +439,12 @@ class GenDyn(Gen):
             m["bases"][tp(op["s"])] += [list(b) for b in op["bs"]]
         elif k == "remove_bases":
             m["bases"][tp(op["s"])] = [b for b in m["bases"][tp(op["s"])] if b not in op["bs"]]
+        elif k == "new_space":
+            m["sp"].append(list(op["p"]))
+            for key_ in ("cells", "refs"):
+                m[key_][tp(op["p"])] = {}
+            m["bases"][tp(op["p"])] = []
+            m["span"][tp(op["p"])] = 0
         elif k == "set_formula":
             cur = dict(m["cells"][tp(op["s"])].get(op["c"]) or {"an": 0, "cached": True})
             cur["f"] = op["f"]
